@@ -3,7 +3,7 @@
 # of the Coq development (never -vos), which also runs the extractions.
 set -e
 cd "$(dirname "$0")"
-python3 tools/gen_tables.py /repo coq 2>/dev/null || true
+python3 tools/gen_tables.py "${VERIF_REPO:-/repo}" coq 2>/dev/null || true
 cd coq
 (echo "-Q . Tickit"; ls *.v | LC_ALL=C sort) > _CoqProject
 coq_makefile -f _CoqProject -o Makefile
